@@ -25,6 +25,18 @@ CLAIMED = {
         "watchdog in ./check, never as a violation.",
         "DESIGN.md section 4, C01",
     ),
+    "C16": (
+        "proptest random search over command trees x six generators: determinism and textual level-coverage oracles from the built command's item sets; for bash a differential test in a real bash process (script sourced, completion function called for generated subcommand paths and partial words)",
+        "For generated trees (hyphen/underscore names that collide after mangling, aliases, hidden items, possible values, value hints, "
+        "hyphenated bin names) every generator must return, be deterministic, and mention every visible option spelling, possible value "
+        "(where the shell completes values) and subcommand spelling inside the block of its level (per-shell block extraction). The bash "
+        "script must pass `bash -n` and, executed in bash with COMP_WORDS/COMP_CWORD set for 4-10 queries per tree, answer dash words "
+        "with exactly option spellings of the addressed level (all visible ones included) and other words with entries of that level "
+        "including every visible subcommand spelling.",
+        "Only bash is installed, so the other five scripts are judged textually; names are innocuous (C17 covers hostile text); queries whose "
+        "word is a complete subcommand name are not judged.",
+        "DESIGN.md section 4, C16",
+    ),
     "C18": (
         "proptest random search: totality over every cursor index, and a differential validity/completeness oracle against the built command's item set and the real parser, shrinking",
         "Part A calls the engine at every cursor index of argv built from generated trees (incl. hyphen-accepting args, unknown flags, "
